@@ -767,7 +767,8 @@ namespace c16
     int N = D + (IsSimplex<Shape_>::value ? 0 : dim - 1);
     N += int(c.rng.pick<int>({0, 0, 0, 1, 2}));
     if(N < 1) N = 1;
-    if(std::is_same<Shape_, Shape::Simplex<3>>::value && N == 7) N = 8; // auto-degree:7 maps to shunn-ham:5 (exact to degree 6 only)
+    // Simplex<3>: auto-degree:7 maps to shunn-ham:5 (exact to degree 6 only) and auto-degree:>=9 to shunn-ham:6 (exact to degree 8)
+    if(std::is_same<Shape_, Shape::Simplex<3>>::value) { if(N == 7) N = 8; if(N > 8) N = 8; }
     std::string name = "auto-degree:" + std::to_string(N);
     if(!IsSimplex<Shape_>::value && c.rng.coin(0.25)) name = "gauss-legendre:" + std::to_string(N / 2 + 1);
     if(tagout) *tagout = name;
